@@ -5,6 +5,7 @@ import Rpki.Model.CrlEnc
 import Rpki.Model.CmsEnc
 import Rpki.Model.IdEnc
 import Rpki.Model.SigMsgEnc
+import Rpki.Model.CsrEnc
 import Rpki.Model.Manifest
 import Rpki.Model.Crl
 import Rpki.Model.Roa
@@ -231,6 +232,7 @@ def handle (toks : List String) (impl : String) : Verdict :=
           else if kind = "crl" then Driver.CertShow.crlLine b
           else if kind = "idcert" then Driver.CertShow.idcLine b
           else if kind = "sigmsg" then Driver.CertShow.smsgLine b
+          else if kind = "csr" then Driver.CertShow.csrLine "csr" b
           else Driver.CertShow.cmsLine kind b
         -- a certificate the library built (or any canonical one): writing the decoded fields again with the model of
         -- `TbsCert::encode_ref` must give the to-be-signed octets the library wrote
@@ -257,6 +259,20 @@ def handle (toks : List String) (impl : String) : Verdict :=
               if Rpki.CmsEnc.encodeSigObj o.contentType o.content (Rpki.CertEnc.encodeCert o.cert o.cert.signature) o.sid o.attrs o.signature ≠ b then
                 some "CmsEnc.encodeSigObj of the decoded parts differs from the signed object's octets"
               else none
+            | none => none
+          else if kind = "csr" then
+            -- `Csr::construct_rpki_ca` (Model/CsrEnc.lean)
+            match Rpki.CsrDer.decodeCsr false b with
+            | some d =>
+              match d.sia with
+              | some sia =>
+                match sia.caRepository, sia.rpkiManifest with
+                | some repo, some mft =>
+                  if Rpki.CsrEnc.encodeCsr d.subject d.keyAlg d.keyUnused d.keyBits repo mft sia.rpkiNotify d.signature ≠ b then
+                    some "CsrEnc.encodeCsr of the decoded fields differs from the request's octets"
+                  else none
+                | _, _ => some "a built request without both URIs"
+              | none => none
             | none => none
           else if kind = "idcert" then
             -- `IdCert::encode_ref` (Model/IdEnc.lean)
